@@ -1,5 +1,280 @@
 package main
 
-func costCommand(args []string) bool  { return false }
-func raceCommand(args []string) bool  { return false }
-func factsCommand(args []string) bool { return false }
+// C20: allocation growth measurement; C14: concurrent use under the race detector.
+
+import (
+	"encoding/json"
+	"fmt"
+	"os"
+	"runtime"
+	"sort"
+	"strings"
+	"sync"
+
+	"github.com/nlnwa/whatwg-url/canonicalizer"
+	"github.com/nlnwa/whatwg-url/url"
+)
+
+// ---- C20 ---------------------------------------------------------------------------------------------------
+
+type family struct {
+	Name string
+	Gen  func(n int) string
+	Op   string // parse | href | pathname | searchparams | getters | canon
+}
+
+var families = []family{
+	{"long-opaque-path", func(n int) string { return "sc:" + strings.Repeat("a", n) }, "parse"},
+	{"long-scheme-specific-non-ascii", func(n int) string { return "sc:" + strings.Repeat("é", n) }, "parse"},
+	{"long-username", func(n int) string { return "http://" + strings.Repeat("u", n) + "@h/" }, "parse"},
+	{"long-password", func(n int) string { return "http://u:" + strings.Repeat("p", n) + "@h/" }, "parse"},
+	{"many-at", func(n int) string { return "http://" + strings.Repeat("@", n) + "h/" }, "parse"},
+	{"many-colon-in-credentials", func(n int) string { return "http://" + strings.Repeat(":", n) + "@h/" }, "parse"},
+	{"long-opaque-host", func(n int) string { return "sc://" + strings.Repeat("h", n) + "/" }, "parse"},
+	{"long-opaque-host-percent", func(n int) string { return "sc://" + strings.Repeat("%41", n/3) + "/" }, "parse"},
+	{"long-domain-host", func(n int) string { return "http://" + strings.Repeat("a.", n/2) + "com/" }, "parse"},
+	{"long-domain-host-escaped", func(n int) string { return "http://" + strings.Repeat("%61", n/3) + ".com/" }, "parse"},
+	{"many-path-segments", func(n int) string { return "http://h" + strings.Repeat("/a", n/2) }, "parse"},
+	{"many-slashes", func(n int) string { return "http://h" + strings.Repeat("/", n) }, "parse"},
+	{"many-backslashes", func(n int) string { return "http://h" + strings.Repeat("\\", n) }, "parse"},
+	{"many-dot-segments", func(n int) string { return "http://h" + strings.Repeat("/a/..", n/5) }, "parse"},
+	{"many-double-dot-segments", func(n int) string { return "http://h" + strings.Repeat("/..", n/3) }, "parse"},
+	{"many-escaped-dot-segments", func(n int) string { return "http://h" + strings.Repeat("/%2e", n/4) }, "parse"},
+	{"long-path-segment-encoded", func(n int) string { return "http://h/" + strings.Repeat(" a", n/2) }, "parse"},
+	{"long-query", func(n int) string { return "http://h/?" + strings.Repeat("q", n) }, "parse"},
+	{"long-query-encoded", func(n int) string { return "http://h/?" + strings.Repeat("\"", n) }, "parse"},
+	{"many-parameters", func(n int) string { return "http://h/?" + strings.Repeat("a=1&", n/4) }, "parse"},
+	{"long-fragment", func(n int) string { return "http://h/#" + strings.Repeat("f", n) }, "parse"},
+	{"long-fragment-percent", func(n int) string { return "http://h/#" + strings.Repeat("%", n) }, "parse"},
+	{"long-port-digits", func(n int) string { return "http://h:" + strings.Repeat("0", n) + "80/" }, "parse"},
+	{"leading-whitespace", func(n int) string { return strings.Repeat(" ", n) + "http://h/" }, "parse"},
+	{"embedded-tabs", func(n int) string { return "http://h/" + strings.Repeat("a\t", n/2) }, "parse"},
+	{"long-file-path", func(n int) string { return "file:///C:" + strings.Repeat("/a", n/2) }, "parse"},
+	{"relative-many-segments", func(n int) string { return strings.Repeat("../a/", n/5) }, "resolve"},
+	{"ipv6-long", func(n int) string { return "http://[" + strings.Repeat("1:", n/2) + "]/" }, "parse"},
+	{"many-path-segments-href", func(n int) string { return "http://h" + strings.Repeat("/a", n/2) }, "href"},
+	{"many-path-segments-pathname", func(n int) string { return "http://h" + strings.Repeat("/a", n/2) }, "pathname"},
+	{"long-query-href", func(n int) string { return "http://h/?" + strings.Repeat("q", n) }, "href"},
+	{"many-parameters-searchparams", func(n int) string { return "http://h/?" + strings.Repeat("a=1&", n/4) }, "searchparams"},
+	{"long-parameter-searchparams", func(n int) string { return "http://h/?a=" + strings.Repeat("%41", n/3) }, "searchparams"},
+	{"many-parameters-sort", func(n int) string { return "http://h/?" + strings.Repeat("b=1&a=2&", n/8) }, "sort"},
+	{"getters-long-url", func(n int) string {
+		return "http://" + strings.Repeat("u", 10) + "@h/" + strings.Repeat("a/", n/4) + "?" + strings.Repeat("q", n/4) + "#" + strings.Repeat("f", n/4)
+	}, "getters"},
+	{"canon-gsb-many-segments", func(n int) string { return "http://h" + strings.Repeat("/%2561", n/6) }, "canon-gsb"},
+	{"canon-gsb-long-query", func(n int) string { return "http://h/?" + strings.Repeat("a=%2562&", n/8) }, "canon-gsb"},
+	{"canon-semantic-many-segments", func(n int) string { return "http://h" + strings.Repeat("/a", n/2) + "?b=1&a=2" }, "canon-semantic"},
+}
+
+func measure(f family, n int) (alloc, mallocs uint64) {
+	in := f.Gen(n)
+	var u *url.Url
+	base, _ := url.Parse("http://h/a/b/c")
+	if f.Op != "parse" && f.Op != "resolve" && !strings.HasPrefix(f.Op, "canon") {
+		u, _ = url.Parse(in)
+		if u == nil {
+			return 0, 0
+		}
+	}
+	runtime.GC()
+	var m0, m1 runtime.MemStats
+	runtime.ReadMemStats(&m0)
+	switch f.Op {
+	case "parse":
+		_, _ = url.Parse(in)
+	case "resolve":
+		_, _ = base.Parse(in)
+	case "href":
+		_ = u.Href(false)
+	case "pathname":
+		_ = u.Pathname()
+	case "searchparams":
+		sp := u.SearchParams()
+		_ = sp.String()
+	case "sort":
+		sp := u.SearchParams()
+		sp.Sort()
+	case "getters":
+		_ = u.Protocol() + u.Username() + u.Password() + u.Host() + u.Hostname() + u.Port() + u.Search() + u.Hash() + u.Query() + u.Fragment()
+		_ = u.IsIPv4()
+		_ = u.IsIPv6()
+		_ = u.DecodedPort()
+	case "canon-gsb":
+		_, _ = canonicalizer.GoogleSafeBrowsing.Parse(in)
+	case "canon-semantic":
+		_, _ = canonicalizer.Semantic.Parse(in)
+	}
+	runtime.ReadMemStats(&m1)
+	return m1.TotalAlloc - m0.TotalAlloc, m1.Mallocs - m0.Mallocs
+}
+
+func costCommand(args []string) bool {
+	n := 2000
+	if len(args) > 0 {
+		fmt.Sscan(args[0], &n)
+	}
+	type row struct {
+		Family     string  `json:"family"`
+		Op         string  `json:"op"`
+		N          int     `json:"n"`
+		Alloc1     uint64  `json:"alloc_n"`
+		Alloc4     uint64  `json:"alloc_4n"`
+		Mallocs1   uint64  `json:"mallocs_n"`
+		Mallocs4   uint64  `json:"mallocs_4n"`
+		AllocRatio float64 `json:"alloc_ratio"`
+		MallocRat  float64 `json:"mallocs_ratio"`
+	}
+	var rows []row
+	for _, f := range families {
+		measure(f, 64) // warm up
+		a1, m1 := measure(f, n)
+		a4, m4 := measure(f, 4*n)
+		r := row{Family: f.Name, Op: f.Op, N: n, Alloc1: a1, Alloc4: a4, Mallocs1: m1, Mallocs4: m4}
+		if a1 > 0 {
+			r.AllocRatio = float64(a4) / float64(a1)
+		}
+		if m1 > 0 {
+			r.MallocRat = float64(m4) / float64(m1)
+		}
+		rows = append(rows, r)
+	}
+	b, _ := json.MarshalIndent(rows, "", " ")
+	fmt.Println(string(b))
+	return true
+}
+
+// ---- C14 ---------------------------------------------------------------------------------------------------
+
+func tableFingerprint() string {
+	var sb strings.Builder
+	for _, s := range []*url.PercentEncodeSet{url.C0PercentEncodeSet, url.C0OrSpacePercentEncodeSet, url.FragmentPercentEncodeSet, url.QueryPercentEncodeSet,
+		url.SpecialQueryPercentEncodeSet, url.PathPercentEncodeSet, url.UserInfoPercentEncodeSet, url.HostPercentEncodeSet,
+		canonicalizer.LaxPathPercentEncodeSet, canonicalizer.LaxQueryPercentEncodeSet, canonicalizer.RepeatedQueryPercentDecodeSet} {
+		for c := rune(0); c < 0x100; c++ {
+			sb.WriteString(b01(s.RuneShouldBeEncoded(c)))
+		}
+	}
+	bs := url.VerifBitsets()
+	names := make([]string, 0, len(bs))
+	for k := range bs {
+		names = append(names, k)
+	}
+	sort.Strings(names)
+	for _, k := range names {
+		sb.WriteString(k + "=" + bs[k].DumpAsBits())
+	}
+	sb.WriteString(schemesTok(url.VerifDefaultSpecialSchemes()))
+	return sb.String()
+}
+
+type raceJob struct {
+	kind  int
+	in    string
+	base  int
+	prof  int
+	want  string
+	descr string
+}
+
+func resStr(u *url.Url, err error) string {
+	if err != nil {
+		return "ERR:" + errTok(err)
+	}
+	return u.Href(false) + "|" + u.Host() + "|" + u.Pathname() + "|" + u.Search() + "|" + u.Hash() + fmt.Sprint(u.IsIPv4(), u.IsIPv6(), u.DecodedPort())
+}
+
+func raceCommand(args []string) bool {
+	seed, n, workers := uint64(1), 2000, 8
+	if len(args) > 0 {
+		fmt.Sscan(args[0], &seed)
+	}
+	if len(args) > 1 {
+		fmt.Sscan(args[1], &n)
+	}
+	if len(args) > 2 {
+		fmt.Sscan(args[2], &workers)
+	}
+	r := NewRand(seed)
+	before := tableFingerprint()
+	// shared read-only values: parsers, profiles, base urls (fresh: their SearchParams have never been created)
+	// two sets of the same base urls: the expected results are computed sequentially on the first set, the goroutines
+	// share the second, untouched set (so that a lazily initialised field is still uninitialised when they start)
+	var basesSeq, bases []*url.Url
+	for _, b := range basePool {
+		if u, err := url.Parse(b); err == nil {
+			v, _ := url.Parse(b)
+			basesSeq = append(basesSeq, u)
+			bases = append(bases, v)
+		}
+	}
+	sharedParser := url.NewParser(url.WithCollapseConsecutiveSlashes(), url.WithPercentEncodeSinglePercentSign())
+	run := func(j *raceJob, bases []*url.Url) string {
+		switch j.kind {
+		case 0:
+			return resStr(url.Parse(j.in))
+		case 1:
+			return resStr(bases[j.base].Parse(j.in))
+		case 2:
+			return resStr(url.ParseRef(bases[j.base].Href(false), j.in))
+		case 3:
+			return resStr(predefinedProfiles[j.prof].Parser.Parse(j.in))
+		case 4:
+			return resStr(sharedParser.Parse(j.in))
+		case 5:
+			b := bases[j.base]
+			return b.Href(false) + b.Protocol() + b.Username() + b.Password() + b.Host() + b.Hostname() + b.Port() + b.Pathname() + b.Search() + b.Hash() + b.Query() + b.Fragment() + fmt.Sprint(b.IsIPv4(), b.IsIPv6(), b.DecodedPort(), b.OpaquePath(), b.IsSpecialScheme(), len(b.ValidationErrors()))
+		default:
+			return resStr(predefinedProfiles[j.prof].Parser.ParseRef(bases[j.base].Href(false), j.in))
+		}
+	}
+	jobs := make([]*raceJob, n)
+	// expected results are computed on PRIVATE copies of everything first? No: sequentially on the same shared values — a
+	// sequential run cannot race, and it must not change what later concurrent runs see (that is part of the property).
+	for i := range jobs {
+		j := &raceJob{kind: r.N(7), in: genInput(r), base: r.N(len(bases)), prof: r.N(len(predefinedProfiles))}
+		if j.kind == 1 || j.kind == 2 || j.kind == 6 {
+			j.in = genRef(r, "")
+		}
+		j.want = run(j, basesSeq)
+		jobs[i] = j
+	}
+	mism := 0
+	var mu sync.Mutex
+	var first string
+	var wg sync.WaitGroup
+	for w := 0; w < workers; w++ {
+		wg.Add(1)
+		go func(w int) {
+			defer wg.Done()
+			for k := 0; k < len(jobs); k++ {
+				j := jobs[(k*7+w*131)%len(jobs)]
+				got := func() (s string) {
+					defer func() {
+						if p := recover(); p != nil {
+							s = "PANIC"
+						}
+					}()
+					return run(j, bases)
+				}()
+				if got != j.want {
+					mu.Lock()
+					mism++
+					if first == "" {
+						first = fmt.Sprintf("kind=%d input=%q base=%d: concurrent %q, alone %q", j.kind, j.in, j.base, got, j.want)
+					}
+					mu.Unlock()
+				}
+			}
+		}(w)
+	}
+	wg.Wait()
+	after := tableFingerprint()
+	out := map[string]interface{}{"jobs": n, "workers": workers, "operations": n * workers, "mismatches": mism, "first_mismatch": first,
+		"tables_changed": before != after, "bases": len(bases)}
+	b, _ := json.Marshal(out)
+	fmt.Println(string(b))
+	if mism > 0 || before != after {
+		os.Exit(5)
+	}
+	return true
+}
